@@ -63,6 +63,7 @@ UNARY = [
     ['batch', 3, False],
     ['batch', 2, True],
     ['tile', 1],
+    ['tile', 3],
     ['shuffle', 'rot1'],
     ['shuffle', 'swap'],
     ['sort', 'sortkey_neg', True],
